@@ -477,9 +477,18 @@ func execC19Raw(t *testing.T, c C19Raw) (v Verdict) {
 		}
 		wellFormed := refOK && c.Mode != "http-nobody" && ref.GetHeader() != nil && ref.GetHeader().GetSource() != ""
 		var got *goat.Rpc
-		select {
-		case got = <-delivered:
-		default:
+		if wellFormed && rec.Code == 200 {
+			// ServeHTTP returns as soon as the reader has taken the envelope; give the reader time to report it
+			select {
+			case got = <-delivered:
+			case <-time.After(netBudget):
+				inconclusive(t, "reader did not report the delivered envelope within %v", netBudget)
+			}
+		} else {
+			select {
+			case got = <-delivered:
+			default:
+			}
 		}
 		if wellFormed {
 			if rec.Code != 200 {
